@@ -7,6 +7,7 @@ PROFILE_MODULES = {
     "last": "last",
     "crud": "crud",
     "derived": "derived",
+    "history": "history",
 }
 
 PROPERTY_PROFILE = {
@@ -15,6 +16,7 @@ PROPERTY_PROFILE = {
     "C09": "last",
     "C15": "crud",
     "C12": "derived",
+    "C13": "history",
 }
 
 _cache = {}
